@@ -430,6 +430,8 @@ def set_configs(tier):
     two = [
         ('p_fl_NTR', 'NTR', 'stdlike', [(F, 'Cmp')] * 2),
         ('p_flx_TR', 'TR', 'amcled', [(F, 'Cmp'), (F, 'Cmp2')]),
+        ('p_flless_NTR', 'NTR', 'amcled', [(F, 'CmpL')] * 2),
+        ('p_flgreater_TC', 'TC', 'stdlike', [(F, 'CmpG')] * 2),
         ('p_sm2_NTR', 'NTR', 'stdlike', [(S, 'Cmp', 2)] * 2),
         ('p_smx_NTR', 'NTR', 'amcled', [(S, 'Cmp', 2), (S, 'Cmp2', 3)]),
         ('p_sm2flat_TR', 'TR', 'stdlike', [(S, 'Cmp', 2, 'flat')] * 2),
@@ -469,6 +471,9 @@ def suite_sets(tier, seed):
             p1 = dict(Keys=[0, 1, 2, 3, 4], Cms=[0, 1, 2, 3], Its=ALL_ITS, RLens=[0, 1, 2, 3], MaxLen=5, Ops='SAllOps', WalkLen=400)
             p2 = dict(Keys=[0, 1, 2, 3], Cms=[0, 1, 2], Its=['ptr'], RLens=[0, 2, 3], MaxLen=4, Ops=SET2_OPS, WalkLen=400)
         jobs = [(c, p1) for c in one] + [(c, p2) for c in two]
+        # stateless comparator types have one state only
+        fixed_cm = {'p_flless_NTR': [0], 'p_flgreater_TC': [1]}
+        jobs = [(c, dict(p, Cms=fixed_cm[c.name], Keys=[0, 1, 2, 3]) if c.name in fixed_cm else p) for c, p in jobs]
         uniq = {}
         for cfg, params in jobs:
             uniq.setdefault(json.dumps([cfg.model(), params], sort_keys=True), (cfg, params))
